@@ -1,7 +1,7 @@
 #!/usr/bin/env python3
 """Take over behaviour-preserving changes written by sub-agents (DESIGN.md 9.5, "silence" side).
 
-  ./ingest_benign.py <pkg> <outdir>     for every <outdir>/<N>/patch.diff: confirm that it applies to /repo's
+  ./ingest_benign.py <pkg> <outdir> [prefix]   for every <outdir>/<N>/patch.diff: confirm that it applies to /repo's
                                         tree and that the repository's own tests pass with it, then store it as
                                         benign/agent-<pkg>-<N>.patch with the checks of the properties anchored in
                                         that package listed in its header; `./selftest benign agent-<pkg>-<N>`
@@ -21,6 +21,7 @@ PK = {
 
 def main():
     pkg, out = sys.argv[1], sys.argv[2]
+    prefix = sys.argv[3] if len(sys.argv) > 3 else "agent"
     for n in sorted(os.listdir(out)):
         p = os.path.join(out, n, "patch.diff")
         if not os.path.isfile(p):
@@ -46,11 +47,11 @@ def main():
         finally:
             shutil.rmtree(d, ignore_errors=True)
         what = (meta.get("summary") or "").replace("\n", " ")[:300]
-        dst = os.path.join(ROOT, "benign", f"agent-{pkg}-{n}.patch")
+        dst = os.path.join(ROOT, "benign", f"{prefix}-{pkg}-{n}.patch")
         with open(dst, "w") as f:
             f.write(f"# {what}\n# checks: {' '.join(PK[pkg])}\n")
             f.write(open(p).read())
-        why = os.path.join(ROOT, "benign", f"agent-{pkg}-{n}.json")
+        why = os.path.join(ROOT, "benign", f"{prefix}-{pkg}-{n}.json")
         json.dump(meta, open(why, "w"), indent=1)
         print(f"{pkg}-{n}: stored {os.path.relpath(dst, ROOT)} ({what[:100]})")
 
